@@ -29,22 +29,25 @@ def showFErr : Req.H2.FErr → String
   | .invalidHost => "err:host"
   | .invalidPath => "err:path"
   | .invalidHeader => "err:header"
+  | .headerListTooLarge => "err:toolarge"
 
-/-- `c16fields <h2|h3> <method> <rawurl> <host> <hdr> <cl> <hasBody> <noBody> <gzip>` → the field
+/-- `c16fields <h2|h3> <method> <rawurl> <host> <hdr> <cl> <hasBody> <noBody> <gzip> <maxHeaderListSize|->` → the field
 list of the header block in canonical form: pseudo fields in order, regular fields sorted (their
 wire order follows Go's map iteration), canonical names of the LISTED regular fields in order. -/
 def laneFields : List String → String
-  | [fl, m, raw, host, hdr, cl, hb, nb, gz] =>
+  | [fl, m, raw, host, hdr, cl, hb, nb, gz, lim] =>
     let fl? : Option Req.H2.Flavor :=
       if fl == "h2" then some .h2 else if fl == "h3" then some .h3 else none
+    let lim? : Option (Option Nat) := if lim == "-" then some none else lim.toNat?.map some
     match fl?, decodeHex m, decodeHex raw, decodeHex host, Wire.decodeHdr hdr, decodeInt cl,
-          Wire.decodeBool hb, Wire.decodeBool nb, Wire.decodeBool gz with
-    | some fl, some m, some raw, some host, some hdr, some cl, some hb, some nb, some gz =>
+          Wire.decodeBool hb, Wire.decodeBool nb, Wire.decodeBool gz, lim? with
+    | some fl, some m, some raw, some host, some hdr, some cl, some hb, some nb, some gz, some lim =>
       match Req.Url.parse raw with
       | .error _ => "bad-op"
       | .ok u =>
         let r : Req.H2.FReq := { method := m, url := u, host := host, header := hdr,
-                                 contentLength := cl, hasBody := hb, noBody := nb, addGzip := gz }
+                                 contentLength := cl, hasBody := hb, noBody := nb, addGzip := gz,
+                                 maxHeaderList := lim }
         match Req.H2.fields fl r with
         | .error e => showFErr e
         | .ok fs =>
@@ -56,7 +59,7 @@ def laneFields : List String → String
             then some (Req.Ascii.canonicalMIMEHeaderKey f.1) else none
           "ok " ++ encodeFields pseudo ++ " " ++ encodeFields (regular.mergeSort fieldLe) ++ " " ++
             encodeList listed
-    | _, _, _, _, _, _, _, _, _ => "bad-op"
+    | _, _, _, _, _, _, _, _, _, _ => "bad-op"
   | _ => "bad-op"
 
 def lanes : List (String × (List String → String)) := [
